@@ -63,8 +63,9 @@ type CtxIn struct {
 }
 
 type Case struct {
-	Kind   string   `json:"kind"` // contains | clamp | parsetimerange | parserange | mutes | stage
+	Kind   string   `json:"kind"` // contains | clamp | parsetimerange | parserange | mutes | stage | sys
 	Clamp  []int    `json:"clamp,omitempty"` // n, lo, hi
+	Sys    *SysIn   `json:"sys,omitempty"`
 	YAML   string   `json:"yaml,omitempty"`
 	Want   *Intent  `json:"want,omitempty"`
 	Insts  []InstIn `json:"insts,omitempty"`
@@ -1121,10 +1122,20 @@ func genParseCases(r *vh.Rand, n int) []Case {
 
 // a few named interval sets; intervals in them have no explicitly empty field (DESIGN I3)
 func genNamed(r *vh.Rand) (string, []Intent, []string) {
-	n := r.Range(1, 4)
+	y, its, names, _ := genNamedOwners(r)
+	return y, its, names
+}
+
+// genNamedOwners also returns, per intent, the name of the set it belongs to.
+func genNamedOwners(r *vh.Rand) (string, []Intent, []string, []string) {
+	return genNamedN(r, r.Range(1, 4), 0)
+}
+
+// maxFields > 0 limits the number of constrained fields per interval (system cases: so that flushes cross edges)
+func genNamedN(r *vh.Rand, n, maxFields int) (string, []Intent, []string, []string) {
 	var sb strings.Builder
 	var its []Intent
-	var names []string
+	var names, owners []string
 	for i := 0; i < n; i++ {
 		name := vh.Pick(r, []string{"offhours", "weekends", "holidays", "maintenance", "business", "night"}) + fmt.Sprintf("%d", i)
 		names = append(names, name)
@@ -1142,11 +1153,47 @@ func genNamed(r *vh.Rand) (string, []Intent, []string) {
 			if r.Bool() {
 				it.Doms = nil
 			}
+			if maxFields > 0 {
+				fields := []**[]Rng{&it.Times, &it.Wdays, &it.Doms, &it.Months, &it.Years}
+				set := []int{}
+				for i, f := range fields {
+					if *f != nil {
+						set = append(set, i)
+					}
+				}
+				vh.Shuffle(r, set)
+				for len(set) > maxFields {
+					*fields[set[0]] = nil
+					set = set[1:]
+				}
+				if len(set) == 0 {
+					v := genTimes(r)
+					it.Times = &v
+				}
+			}
 			its = append(its, it)
+			owners = append(owners, name)
 			sb.WriteString("    - " + yamlOf(r, it, "      "))
 		}
 	}
-	return sb.String(), its, names
+	return sb.String(), its, names, owners
+}
+
+// an instant at (or one step from) an edge of one of the interval's ranges, if it has any
+func genEdge(r *vh.Rand, it Intent) InstIn {
+	ins := genInstants(r, it, 40)
+	var edges []InstIn
+	for _, in := range ins {
+		switch in.Tag {
+		case "grid", "far", "leap", "dst":
+		default:
+			edges = append(edges, in)
+		}
+	}
+	if len(edges) == 0 || r.Chance(1, 6) {
+		return vh.Pick(r, ins)
+	}
+	return vh.Pick(r, edges)
 }
 
 func genNow(r *vh.Rand, its []Intent) InstIn {
@@ -1258,6 +1305,9 @@ func TestCheck(t *testing.T) {
 		for i, n := 0, env.N(600, 10); i < n; i++ {
 			cases = append(cases, genStageCase(r.Fork()))
 		}
+		for i, n := 0, env.N(60, 10); i < n; i++ {
+			cases = append(cases, genSysCase(r.Fork()))
+		}
 		// spread the heavy contains cases evenly over the shards (the order is still a function of the seed)
 		gen := cases[nCorpus:]
 		vh.Shuffle(r, gen)
@@ -1279,6 +1329,8 @@ func TestCheck(t *testing.T) {
 			rn.mutes(c)
 		case "stage":
 			rn.stage(c)
+		case "sys":
+			rn.sys(c)
 		default:
 			t.Fatalf("unknown case kind %q", c.Kind)
 		}
